@@ -274,6 +274,70 @@ where
     }
 }
 
+/// acceptance is a property of the word, not of the history: a word that is rejected as the first word of a
+/// stream is rejected wherever it occurs, so [v, v, ... (k times), u] must give what [u] gives and consume k+1 words.
+/// The rejected word v is found by the harness by trying words (ranges just above half the type are rejected
+/// about half of the time); u is a word that is accepted as a first word.
+fn stateless_events<T: R20>(rec: &mut Rec, r: &mut GRng, thorough: bool)
+where
+    Standard: Distribution<T>,
+    bnum::random::Slice<T>: rand::Fill,
+{
+    let n = (T::W / 8) as usize;
+    rec.sem = "C20";
+    let (tmin, _tmax) = if T::S { (gen::smin(n), gen::smax(n)) } else { (gen::zero(n), gen::ones(n)) };
+    // range [MIN, MIN + 2^(W-1)]: size 2^(W-1) + 1
+    let lowb = tmin.clone();
+    let mut highb = tmin.clone();
+    // high = low + 2^(W-1): flip the top bit
+    highb[n - 1] ^= 0x80;
+    let low = T::dec(&lowb);
+    let high = T::dec(&highb);
+    let is_max = false;
+    for m in ["sample", "single_inclusive", "gen_range"] {
+        // find a rejected and an accepted first word
+        let mut rej: Option<Vec<u8>> = None;
+        let mut acc: Option<Vec<u8>> = None;
+        for _ in 0..400 {
+            let wv = gen::random(r, n);
+            let mut g = Script::new(&wv, 9);
+            let _ = draw::<T>(m, low, high, None, &mut g);
+            if g.pos == n {
+                if acc.is_none() {
+                    acc = Some(wv);
+                }
+            } else if rej.is_none() {
+                rej = Some(wv);
+            }
+            if rej.is_some() && acc.is_some() {
+                break;
+            }
+        }
+        if let (Some(v), Some(u)) = (rej, acc) {
+            for k in [1usize, 2, 127, 128, 129, 200, if thorough { 1000 } else { 300 }] {
+                let mut stream: Vec<u8> = Vec::with_capacity((k + 1) * n);
+                for _ in 0..k {
+                    stream.extend_from_slice(&v);
+                }
+                stream.extend_from_slice(&u);
+                let m: &'static str = m;
+                rec.fam("uniform_stateless", vec![int(&low), int(&high), bytes(&v), bytes(&u), nat(k as u128), tag(m)]);
+                rec.form("alone", || {
+                    let mut g = Script::new(&u, 9);
+                    let x = draw::<T>(m, low, high, None, &mut g).unwrap();
+                    Out::Rec(vec![("v".to_string(), val(x)), ("used".to_string(), natv(g.pos as u128))])
+                });
+                rec.form("after", || {
+                    let mut g = Script::new(&stream, 9);
+                    let x = draw::<T>(m, low, high, None, &mut g).unwrap();
+                    Out::Rec(vec![("v".to_string(), val(x)), ("used".to_string(), natv(g.pos as u128))])
+                });
+            }
+        }
+    }
+    let _ = is_max;
+}
+
 fn hist_ranges(r: &mut GRng, n: usize, signed: bool, count: usize, max_size: u64) -> Vec<(B, B, u64)> {
     let mut v: Vec<(B, B, u64)> = Vec::new();
     let (tmin, tmax) = if signed { (gen::smin(n), gen::smax(n)) } else { (gen::zero(n), gen::ones(n)) };
@@ -319,6 +383,7 @@ where
     let mut r = GRng::new(seed ^ ((T::W as u64) << 28) ^ (T::S as u64) ^ 0xC20);
     standard_events::<T>(rec, &mut r, thorough);
     point_events::<T>(rec, &mut r, thorough);
+    stateless_events::<T>(rec, &mut r, thorough);
     match T::W {
         8 => {
             let cnt = if thorough { 400 } else { 40 };
@@ -334,11 +399,13 @@ where
         }
         24 => {
             // the approximate rejection zone first applies here: complete enumeration of 2^24 words
-            let cnt = if thorough { 8 } else { 1 };
-            let mut rs = hist_ranges(&mut r, n, T::S, cnt + 2, 4096);
+            // always one odd size and one even size that is not a power of two
+            let cnt = if thorough { 8 } else { 2 };
+            let mut rs = hist_ranges(&mut r, n, T::S, cnt + 24, 4096);
             rs.retain(|x| x.2 >= 3 && (x.2 & (x.2 - 1)) != 0);
-            rs.truncate(cnt);
-            for (l, h, s) in rs {
+            let odd: Vec<_> = rs.iter().filter(|x| x.2 % 2 == 1).take((cnt + 1) / 2).cloned().collect();
+            let even: Vec<_> = rs.iter().filter(|x| x.2 % 2 == 0).take(cnt / 2).cloned().collect();
+            for (l, h, s) in odd.into_iter().chain(even.into_iter()) {
                 hist_event::<T>(rec, &l, &h, s);
             }
         }
